@@ -607,6 +607,41 @@ pub fn general_position(a: &MP, b: &MP, sep: f64, min_sin: f64, self_crossing: b
     true
 }
 
+fn ulp_of(v: f64, f32_prec: bool) -> f64 {
+    let a = v.abs().max(f64::MIN_POSITIVE);
+    let e = a.log2().floor() as i32;
+    (2.0f64).powi(e - if f32_prec { 23 } else { 52 })
+}
+
+/// Input-defined trigger of the recorded finding N2 (one-ulp division bump, which can end in the runaway sweep N3): a
+/// crossing point whose abscissa is, at the working precision, indistinguishable from the abscissa of the left endpoint
+/// of one of the two crossing segments while lying below that endpoint (a steep segment crossed close to its start).
+pub fn n2_hazard(a: &MP, b: &MP, f32_prec: bool) -> bool {
+    let mut all: Vec<Seg> = segs_of(a);
+    all.extend(segs_of(b));
+    for i in 0..all.len() {
+        for j in i + 1..all.len() {
+            let (s, t) = (norm_seg(all[i]), norm_seg(all[j]));
+            if s.1 .0 < t.0 .0 || t.1 .0 < s.0 .0 {
+                continue;
+            }
+            if seg_rel(s, t) != Rel::Cross {
+                continue;
+            }
+            if let Some(p) = line_x(s, t) {
+                for seg in [s, t] {
+                    let l = seg.0;
+                    let u = ulp_of(l.0.abs().max(p.0.abs()), f32_prec);
+                    if (p.0 - l.0).abs() <= 16.0 * u && p.1 < l.1 {
+                        return true;
+                    }
+                }
+            }
+        }
+    }
+    false
+}
+
 /// D3 / D5: one or more star polygons (or self-crossing polylines) per operand in general position.
 /// `snap` = 0 gives random doubles (D3), `snap` = 1 integer coordinates (D5).
 /// Returns None (to be counted) if the rejection filter does not accept the draw.
@@ -684,6 +719,13 @@ pub fn gen_general(rng: &mut Rng, max_vertices: usize, snap: f64, f32_ok: bool, 
             }
         }
     }
+    // outside the robust domain: inputs that trigger the recorded finding N2 at double precision are rejected;
+    // inputs that trigger it only at single precision are not run in f32
+    if n2_hazard(&a, &b, false) {
+        return None;
+    }
+    let f32_ok = f32_ok && !n2_hazard(&a, &b, true);
+    let f32_snap_ok = snap >= 1.0 && rmax < 1.0e6 && !n2_hazard(&a, &b, true);
     Some(Case {
         family: if snap > 0.0 { "D5-int" } else { "D3-float" },
         desc: format!("general position rmax={} parts=({},{}) self_crossing={} f32_ok={}", rmax, parts_a, parts_b, self_crossing, f32_ok),
@@ -692,7 +734,7 @@ pub fn gen_general(rng: &mut Rng, max_vertices: usize, snap: f64, f32_ok: bool, 
         exact: false,
         exact_f32: false,
         integer: snap >= 1.0,
-        f32_ok: f32_ok || (snap >= 1.0 && rmax < 1.0e6),
+        f32_ok: f32_ok || f32_snap_ok,
         self_crossing,
         faces: vec![],
     })
